@@ -401,8 +401,8 @@ impl Property for C12 {
     }
     fn cases(&self, tier: Tier) -> u64 {
         match tier {
-            Tier::Quick => 60_000,
-            Tier::Thorough => 1_500_000,
+            Tier::Quick => 400_000,
+            Tier::Thorough => 4_000_000,
         }
     }
     fn required_labels(&self, _tier: Tier) -> Vec<&'static str> {
